@@ -86,11 +86,46 @@ def _fixed_shape(p, f, recv, need):
     return False
 
 
+def _is_local(f, name):
+    g = f
+    while g is not None:
+        if name in g.locals and name not in g.globals_decl:
+            return True
+        g = g.parent
+    return False
+
+
+def _mutated_table(p, f, name):
+    """the module-level table `name` is written somewhere in its module after its definition"""
+    m = f.module
+    for n in ast.walk(m.tree):
+        if isinstance(n, (ast.Subscript, ast.Attribute)) and isinstance(n.ctx, (ast.Store, ast.Del)) and isinstance(n.value, ast.Name) and n.value.id == name:
+            return True
+        if isinstance(n, ast.Call) and isinstance(n.func, ast.Attribute) and isinstance(n.func.value, ast.Name) and n.func.value.id == name \
+                and n.func.attr in ('update', 'pop', 'popitem', 'clear', 'setdefault', '__setitem__', '__delitem__'):
+            return True
+    return False
+
+
 def _fixed_expr(p, f, e, need, depth=0):
     if depth > 4:
         return False
     if isinstance(e, (ast.List, ast.Tuple)):
         return len(e.elts) >= need and not any(isinstance(x, ast.Starred) for x in e.elts)
+    # lookup in a module-level constant table whose values are all records of sufficient length: T[k], T.get(k), T.get(k, d)
+    # (a missing key gives KeyError / None -- TypeError on the subscript --, never IndexError)
+    tab = dflt = None
+    if isinstance(e, ast.Subscript) and not isinstance(e.slice, ast.Slice) and isinstance(e.value, ast.Name):
+        tab = e.value
+    elif isinstance(e, ast.Call) and isinstance(e.func, ast.Attribute) and e.func.attr == 'get' and isinstance(e.func.value, ast.Name) \
+            and 1 <= len(e.args) <= 2 and not e.keywords:
+        tab = e.func.value
+        dflt = e.args[1] if len(e.args) == 2 else None
+    if tab is not None and not _is_local(f, tab.id):
+        v = p.try_const(f, tab)
+        if isinstance(v, dict) and v and all(isinstance(x, (tuple, list)) and len(x) >= need for x in v.values()) and not _mutated_table(p, f, tab.id):
+            if dflt is None or (isinstance(dflt, ast.Constant) and dflt.value is None) or _fixed_expr(p, f, dflt, need, depth + 1):
+                return True
     if isinstance(e, ast.Call):
         tgt = p.resolve_call(f, e)
         if isinstance(tgt, list) and len(tgt) == 1:
@@ -246,6 +281,9 @@ class IndexClient(PathClient):
                 cut = (lo if isinstance(lo, int) and lo >= 0 else 0) + (-hi if isinstance(hi, int) and hi < 0 else 0)
                 if src_of(value.value) == X or True:
                     s = s.set(('len', X), max(0, self.min_len(s.set(('len', X), 0), src_of(value.value)) - cut) if src_of(value.value) != X else 0)
+        elif isinstance(stmt, ast.Delete) and isinstance(target, ast.Subscript):
+            base = src_of(target.value)          # del xs[i] / del xs[a:b]: the container shrinks by an unknown amount
+            s = s.drop_if(lambda k, v: (k[0] == 'len' and (k[1] == base or k[1].startswith(base + '['))) or (k[0] == 'cond' and base in k[1]))
         elif isinstance(target, (ast.Attribute, ast.Subscript)):
             ts = src_of(target)
             s = s.drop_if(lambda k, v: k[0] == 'len' and k[1] == ts)
